@@ -19,7 +19,10 @@ Proof. apply safe_for_components. intros i. apply safe_pwhen. reflexivity. Qed.
 Lemma safe_feedbacks : safe (pseq (map PFeedback (seq 0 (nfb c)))) = true.
 Proof. rewrite safe_pseq, forallb_forall. intros p H. apply in_map_iff in H. destruct H as (j & <- & _). reflexivity. Qed.
 Lemma safe_do_periodics : safe (do_periodics c) = true.
-Proof. unfold do_periodics. cbn [safe]. rewrite safe_feedbacks. reflexivity. Qed.
+Proof. unfold do_periodics. rewrite safe_pseq. cbn [forallb]. rewrite safe_feedbacks. reflexivity. Qed.
+(* a selector callback that exists only when an autonomous mode is selected, under its guard *)
+Lemma safe_guard_pwhen b s : safe (PGuard (pwhen b (PInvoke s))) = true.
+Proof. destruct b; reflexivity. Qed.
 Lemma safe_enabled_periodic : safe (enabled_periodic c) = true.
 Proof.
   unfold enabled_periodic. rewrite safe_pseq. cbn [forallb].
@@ -32,20 +35,19 @@ Qed.
 
 Lemma safe_enter m : safe (enter c m) = true.
 Proof.
-  destruct m; unfold enter, put_mode; rewrite safe_pseq; cbn [forallb safe];
-    rewrite ?safe_on_enable, ?safe_on_disable; try reflexivity.
-  rewrite safe_pwhen by reflexivity. reflexivity.
+  destruct m; unfold enter, put_mode; rewrite safe_pseq; cbn [forallb];
+    rewrite ?safe_on_enable, ?safe_on_disable, ?safe_guard_pwhen; reflexivity.
 Qed.
 Lemma safe_iteration m : safe (iteration c m) = true.
 Proof.
   destruct m; unfold iteration; rewrite safe_pseq; cbn [forallb];
-    rewrite ?safe_do_periodics, ?safe_enabled_periodic, ?safe_guard_enabled_periodic; try reflexivity.
+    rewrite ?safe_do_periodics, ?safe_enabled_periodic, ?safe_guard_enabled_periodic, ?safe_guard_pwhen; try reflexivity.
   rewrite !safe_pwhen by reflexivity. reflexivity.
 Qed.
 Lemma safe_leave m : safe (leave c m) = true.
 Proof.
   destruct m; unfold leave; try reflexivity; try apply safe_on_disable.
-  rewrite safe_pseq. cbn [forallb]. rewrite safe_on_disable, safe_pwhen by reflexivity. reflexivity.
+  rewrite safe_pseq. cbn [forallb]. rewrite safe_on_disable, safe_guard_pwhen. reflexivity.
 Qed.
 Lemma safe_tick cur t : safe (snd (tick_prog c cur t)) = true.
 Proof.
@@ -72,10 +74,12 @@ Lemma no_env_on_disable : no_env (on_mode_disable_components c) = true.
 Proof. apply no_env_for_components. intros i. apply no_env_pwhen. reflexivity. Qed.
 Lemma no_env_do_periodics : no_env (do_periodics c) = true.
 Proof.
-  unfold do_periodics. cbn [no_env]. rewrite no_env_pseq.
+  unfold do_periodics. rewrite no_env_pseq. cbn [forallb no_env]. rewrite no_env_pseq.
   replace (forallb no_env (map PFeedback (seq 0 (nfb c)))) with true; [reflexivity|].
   symmetry. apply forallb_forall. intros p H. apply in_map_iff in H. destruct H as (j & <- & _). reflexivity.
 Qed.
+Lemma no_env_guard_pwhen b s : no_env (PGuard (pwhen b (PInvoke s))) = true.
+Proof. destruct b; reflexivity. Qed.
 Lemma no_env_enabled_periodic : no_env (enabled_periodic c) = true.
 Proof.
   unfold enabled_periodic. rewrite no_env_pseq. cbn [forallb].
@@ -83,20 +87,19 @@ Proof.
 Qed.
 Lemma no_env_enter m : no_env (enter c m) = true.
 Proof.
-  destruct m; unfold enter, put_mode; rewrite no_env_pseq; cbn [forallb no_env];
-    rewrite ?no_env_on_enable, ?no_env_on_disable; try reflexivity.
-  rewrite no_env_pwhen by reflexivity. reflexivity.
+  destruct m; unfold enter, put_mode; rewrite no_env_pseq; cbn [forallb];
+    rewrite ?no_env_on_enable, ?no_env_on_disable, ?no_env_guard_pwhen; reflexivity.
 Qed.
 Lemma no_env_iteration m : no_env (iteration c m) = true.
 Proof.
-  destruct m; unfold iteration; rewrite no_env_pseq; cbn [forallb no_env];
-    rewrite ?no_env_do_periodics, ?no_env_enabled_periodic; try reflexivity.
+  destruct m; unfold iteration; rewrite no_env_pseq; cbn [forallb];
+    rewrite ?no_env_do_periodics, ?no_env_guard_pwhen; cbn [no_env]; rewrite ?no_env_enabled_periodic; try reflexivity.
   rewrite !no_env_pwhen by reflexivity. reflexivity.
 Qed.
 Lemma no_env_leave m : no_env (leave c m) = true.
 Proof.
   destruct m; unfold leave; try reflexivity; try apply no_env_on_disable.
-  rewrite no_env_pseq. cbn [forallb]. rewrite no_env_on_disable, no_env_pwhen by reflexivity. reflexivity.
+  rewrite no_env_pseq. cbn [forallb]. rewrite no_env_on_disable, no_env_guard_pwhen. reflexivity.
 Qed.
 Lemma no_env_startup : no_env (startup c) = true.
 Proof. apply no_env_for_components. intros i. apply no_env_pwhen. reflexivity. Qed.
@@ -149,9 +152,11 @@ Proof. induction l as [|x l IH]; cbn; [reflexivity | rewrite IH; reflexivity]. Q
 
 Lemma psites_do_periodics : psites (do_periodics c) = fb_sites c.
 Proof.
-  unfold do_periodics, fb_sites. cbn [psites]. rewrite psites_pseq, map_map.
-  rewrite (concat_map_singleton SFeedback). reflexivity.
+  unfold do_periodics, fb_sites. rewrite psites_pseq. cbn [map concat psites]. rewrite psites_pseq, map_map.
+  rewrite (concat_map_singleton SFeedback), app_nil_r. reflexivity.
 Qed.
+Lemma psites_guard_pwhen b s : psites (PGuard (pwhen b (PInvoke s))) = if b then [s] else [].
+Proof. destruct b; reflexivity. Qed.
 Lemma psites_execs : psites (for_components c (fun i => PGuard (PInvoke (SExecute i)))) = exec_sites c.
 Proof.
   unfold for_components, exec_sites, comps. rewrite psites_pseq, map_map.
@@ -165,20 +170,22 @@ Qed.
 
 Lemma psites_enter m : psites (enter c m) = enter_sites c m.
 Proof.
-  destruct m; unfold enter, enter_sites, put_mode; rewrite psites_pseq; cbn [map concat psites];
+  destruct m; unfold enter, enter_sites, put_mode; rewrite psites_pseq; cbn [map concat];
+    rewrite ?psites_guard_pwhen; cbn [psites];
     rewrite ?psites_on_enable, ?psites_on_disable, ?psites_pwhen; cbn [psites app]; rewrite ?app_nil_r; try reflexivity;
     try (destruct (has_auto c); reflexivity).
 Qed.
 Lemma psites_iteration m : psites (iteration c m) = iter_sites c m.
 Proof.
-  destruct m; unfold iteration, iter_sites; rewrite psites_pseq; cbn [map concat psites];
+  destruct m; unfold iteration, iter_sites; rewrite psites_pseq; cbn [map concat];
+    rewrite ?psites_guard_pwhen; cbn [psites];
     rewrite ?psites_do_periodics, ?psites_enabled_periodic, ?psites_pwhen; cbn [psites app]; rewrite ?app_nil_r; try reflexivity;
     try (destruct (has_auto c), (teleop_in_auto c); cbn; reflexivity).
 Qed.
 Lemma psites_leave m : psites (leave c m) = leave_sites c m.
 Proof.
   destruct m; unfold leave, leave_sites; try reflexivity; try apply psites_on_disable.
-  rewrite psites_pseq. cbn [map concat]. rewrite psites_on_disable, psites_pwhen, app_nil_r.
+  rewrite psites_pseq. cbn [map concat]. rewrite psites_on_disable, psites_guard_pwhen, app_nil_r.
   destruct (has_auto c); reflexivity.
 Qed.
 
@@ -385,10 +392,9 @@ Proof.
   intros Hf Hm Hw. destruct m; try discriminate; unfold iteration, pseq; cbn [fold_right].
   - (* Auto *)
     rewrite (denote_seq c raises writes fbval) by exact Hw.
-    pose proof (safe_fw (pwhen (has_auto c) (PGuard (PInvoke SAutoIter))) w
-                  (safe_pwhen _ (PGuard (PInvoke SAutoIter)) eq_refl)
-                  (no_env_pwhen _ (PGuard (PInvoke SAutoIter)) eq_refl) Hw Hf) as H1.
-    destruct (denote (pwhen (has_auto c) (PGuard (PInvoke SAutoIter))) w) as [w1 e1]. destruct H1 as (A1 & _ & _ & A4).
+    pose proof (safe_fw (PGuard (pwhen (has_auto c) (PInvoke SAutoIter))) w
+                  (safe_guard_pwhen _ SAutoIter) (no_env_guard_pwhen _ SAutoIter) Hw Hf) as H1.
+    destruct (denote (PGuard (pwhen (has_auto c) (PInvoke SAutoIter))) w) as [w1 e1]. destruct H1 as (A1 & _ & _ & A4).
     rewrite (denote_seq c raises writes fbval) by exact A1.
     pose proof (safe_fw (pwhen (teleop_in_auto c) (PGuard (PInvoke (SPeriodic Teleop)))) w1
                   (safe_pwhen _ (PGuard (PInvoke (SPeriodic Teleop))) eq_refl)
@@ -468,7 +474,7 @@ Proof.
   - (* Auto *)
     rewrite (denote_seq c raises writes fbval) by exact Hw.
     pose proof (calm_total _ w (calm_seq_l _ _ _ Hc) Hw) as H1.
-    destruct (denote (pwhen (has_auto c) (PGuard (PInvoke SAutoIter))) w) as [w1 e1]. destruct H1 as (A1 & _ & A3 & A4).
+    destruct (denote (PGuard (pwhen (has_auto c) (PInvoke SAutoIter))) w) as [w1 e1]. destruct H1 as (A1 & _ & A3 & A4).
     pose proof (calm_seq_r _ _ w w1 Hc A3 A4) as Hc2.
     rewrite (denote_seq c raises writes fbval) by exact A1.
     pose proof (calm_total _ w1 (calm_seq_l _ _ _ Hc2) A1) as H2.
